@@ -169,6 +169,7 @@ func (s *Server) Run(addr string, opt ...Option) error {
 	s.logger.Info("listening", "op", op, "addr", s.listener.Addr())
 
 	connID := 0
+	var acceptDelay time.Duration // how long to sleep on a temporary accept failure
 	for {
 		connID++
 		select {
@@ -183,8 +184,29 @@ func (s *Server) Run(addr string, opt ...Option) error {
 				s.logger.Debug("accept on closed conn")
 				return nil
 			}
+			// a temporary failure (running out of file descriptors for
+			// example) must not stop the server from accepting conns once the
+			// condition has passed, so retry with a backoff
+			if ne, ok := err.(net.Error); ok && ne.Temporary() { // nolint:staticcheck
+				if acceptDelay == 0 {
+					acceptDelay = 5 * time.Millisecond
+				} else {
+					acceptDelay *= 2
+				}
+				if max := 1 * time.Second; acceptDelay > max {
+					acceptDelay = max
+				}
+				s.logger.Error("temporary error accepting conn; retrying", "op", op, "err", err.Error(), "delay", acceptDelay)
+				select {
+				case <-time.After(acceptDelay):
+				case <-s.shutdownCtx.Done():
+					return nil
+				}
+				continue
+			}
 			return fmt.Errorf("%s: error accepting conn: %w", op, err)
 		}
+		acceptDelay = 0
 		s.logger.Debug("new connection accepted", "op", op, "conn", connID)
 		conn, err := newConn(s.shutdownCtx, connID, c, s.logger, s.router)
 		if err != nil {
